@@ -72,7 +72,7 @@ impl TokenStore {
 
 //@begin fn src/token.rs impl:TokenStore checkout props=C06,C01
     pub fn checkout(&mut self, addr: IpAddr) -> (t: Token)
-        ensures exists|f1: u32, f2: u32| final(self).view() == #[trigger] step(old(self).view(), clock(), f1, f2), // @C06.rotation_is_lazy_step
+        ensures exists|f1: u32, f2: u32| final(self).view() == #[trigger] step(old(self).view(), clock(), f1, f2), // @C06.rotation_is_lazy_step @C01.rotation_is_lazy_step
             t == H(addr, final(self).curr_secret), // @C06.token_bound_to_ip_and_current_secret @C01.token_bound_to_ip_and_current_secret
     {
         self.refresh_check();
@@ -83,7 +83,7 @@ impl TokenStore {
 
 //@begin fn src/token.rs impl:TokenStore checkin props=C06,C01
     pub fn checkin(&mut self, addr: IpAddr, token: Token) -> (r: bool)
-        ensures exists|f1: u32, f2: u32| final(self).view() == #[trigger] step(old(self).view(), clock(), f1, f2), // @C06.rotation_is_lazy_step
+        ensures exists|f1: u32, f2: u32| final(self).view() == #[trigger] step(old(self).view(), clock(), f1, f2), // @C06.rotation_is_lazy_step @C01.rotation_is_lazy_step
             r == (token == H(addr, final(self).curr_secret) || token == H(addr, final(self).last_secret)), // @C06.accept_iff_current_or_previous_secret_for_this_ip @C01.accept_iff_current_or_previous_secret_for_this_ip
     {
         self.refresh_check();
@@ -94,7 +94,7 @@ impl TokenStore {
 
 //@begin fn src/token.rs impl:TokenStore refresh_check props=C06,C01
     pub fn refresh_check(&mut self)
-        ensures exists|f1: u32, f2: u32| final(self).view() == #[trigger] step(old(self).view(), clock(), f1, f2), // @C06.rotation_is_lazy_step
+        ensures exists|f1: u32, f2: u32| final(self).view() == #[trigger] step(old(self).view(), clock(), f1, f2), // @C06.rotation_is_lazy_step @C01.rotation_is_lazy_step
     {
         match intervals_passed(self.last_refresh) {
             0 => (),
